@@ -343,6 +343,8 @@ def bytes_coq(data, bof):
             body = torn[5 + kl:]
             if len(body) > 24 and body == pat(body[0], len(body)):
                 parts.append(f"{cq_bytes(torn[:5 + kl])} ++ (pat {body[0]} {len(body)})")
+            elif len(body) > 24 and body == bytes(len(body)):
+                parts.append(f"{cq_bytes(torn[:5 + kl])} ++ (zeros {len(body)})")
             else:
                 parts.append(cq_bytes(torn))
         else:
